@@ -41,3 +41,14 @@ claim("C01", "other",
       "Decides, for all 12 client transfer sites and all 6 server read/write sites, the structural necessary conditions of byte-exact transfer: offset = start + cursor, buffer region starts at the same cursor, cursor advances by the bytes covered, length field = chunk length, chunk bounded by maxPacket, work item agrees with its request, server uses the packet's own offset/buffer and answers buf[:n], reads clamped to the server maximum. Does not decide equality of bytes under reordering.",
       "Assumes io.ReaderAt/io.WriterAt contracts of the backing object and that the client's packet size does not exceed the server's maximum (the property's premise).",
       "DESIGN.md section 4, C01")
+
+claim("C12", "other",
+      "locksets per exported method derived from reachable field effects, guard dominance closed over call sites, who-may-write, affine shapes of offset stores, Seek table from SSA",
+      "Decides the structural conditions of os.File-like offset and closed-state semantics for every exported File method and every path: required lock mode held at every access/helper call; closed test dominates every handle load (interprocedurally); Close invalidates before sending CLOSE with the old handle and is the only writer; *At/metadata methods cannot reach a store to the offset; each offset store has the sanctioned 'bytes moved' shape; Seek's whence table and negative guard.",
+      "Assumes callers use a File only through its methods; lock idiom Lock/RLock + deferred unlock.",
+      "DESIGN.md section 4, C12")
+claim("C13", "other",
+      "structural rules on the reducers/workers/sequential loops of client.go (guards, return terms via affine comparison, channel-send shape)",
+      "Decides the necessary conditions of prefix accounting on partial failure: lowest-offset reduction from MaxInt64, count = first.off - off with first.err, unconditional error delivery to the drained channel, read-worker error offset = chunk offset + bytes copied with short DATA => io.EOF, sequential loops stop at the first error, WriteTo reducer order/stop/EOF mapping, nil error only with the full length, ReadFrom returns bytes consumed.",
+      "Assumes regular files return short reads only at end of file (stated in client.go).",
+      "DESIGN.md section 4, C13")
